@@ -225,6 +225,26 @@ func job(pkg, fn string, id string, args ...int64) sym.Job {
 	return sym.Job{ID: id, Pkg: "verif/harness/" + pkg, Func: fn, Args: args}
 }
 
+// twoStepPairs lists the (first, second) opcode pairs of the two-instruction jobs of C01/C02:
+// the block moves in every combination (a repeating MVN/MVP is re-executed once per byte, so the
+// second step is the second iteration), and a block move followed / preceded by ordinary
+// instructions; thorough adds every opcode twice in a row and every opcode after a block move.
+func twoStepPairs(tier string) [][2]int {
+	const mvp, mvn = 0x44, 0x54
+	prs := [][2]int{{mvn, mvn}, {mvp, mvp}, {mvn, mvp}, {mvp, mvn}, {mvn, 0xAD}, {mvp, 0x8D}, {0xC2, mvn}, {0xE2, mvp}, {0xAB, mvn}, {0xEB, 0xEB}, {0xC2, 0xA2}, {0xE2, 0xC2}, {0x28, 0xBB}}
+	if tier == "thorough" {
+		for op := 0; op < 256; op++ {
+			if op != mvn && op != mvp && op != 0xEB {
+				prs = append(prs, [2]int{op, op})
+			}
+			if op != mvn && op != mvp && op != 0xAD {
+				prs = append(prs, [2]int{mvn, op})
+			}
+		}
+	}
+	return prs
+}
+
 var cpuNames = []string{"main", "alt"}
 
 var mapperNames = []string{"lorom", "hirom", "exhirom", "sa1rom"}
@@ -241,6 +261,12 @@ func init() {
 					for mx := 0; mx < 4; mx++ {
 						m, x := mx>>1, mx&1
 						js = append(js, job("c01", "Step", fmt.Sprintf("c01/%s/%s/m%dx%d", cpuNames[cpu], opName(op), m, x), int64(cpu), int64(op), int64(m), int64(x)))
+					}
+				}
+				for _, pr := range twoStepPairs(tier) {
+					for mx := 0; mx < 4; mx++ {
+						m, x := mx>>1, mx&1
+						js = append(js, job("c01", "Step2", fmt.Sprintf("c01/two-steps/%s/%s-then-%s/m%dx%d", cpuNames[cpu], opName(pr[0]), opName(pr[1]), m, x), int64(cpu), int64(pr[0]), int64(pr[1]), int64(m), int64(x)))
 					}
 				}
 			}
@@ -267,6 +293,11 @@ func init() {
 					if tier == "thorough" || mode == op%4 {
 						js = append(js, job("c02", "Copy", fmt.Sprintf("c02/copied-cpu/%s/%s", opName(op), modeNames[mode]), int64(op), int64(mode)))
 					}
+				}
+			}
+			for _, pr := range twoStepPairs(tier) {
+				for mode := 0; mode < 4; mode++ {
+					js = append(js, job("c02", "Lockstep2", fmt.Sprintf("c02/two-steps/%s-then-%s/%s", opName(pr[0]), opName(pr[1]), modeNames[mode]), int64(pr[0]), int64(pr[1]), int64(mode)))
 				}
 			}
 			js = append(js, job("c02", "Trigger", "c02/api/trigger-irq"), job("c02", "Reset", "c02/api/reset"))
